@@ -60,7 +60,9 @@ def real_set(obj, T, path, t, value, node_type, bits):
         cont[last["i"] - 1] = A.unproject(value, node_type, cls.type)
 
 
-def session_history(rnd, first_id, nev):
+def session_history(rnd, first_id, nev, focus=False):
+    """focus: a history about construction - one class on one object, many partial positional / keyword constructions,
+    in-place changes below the top level (what an instance shares with its class or its siblings shows there)."""
     from dissect.cstruct import cstruct
 
     modes = [codec.gen_mode(rnd), codec.gen_mode(rnd)]
@@ -104,10 +106,14 @@ def session_history(rnd, first_id, nev):
         events.append(ev)
         rid += 1
 
+    if focus:
+        types = types[:1]
     for _ in range(nev):
         r_ = rnd.random()
-        c = rnd.randrange(2)
+        c = 0 if focus else rnd.randrange(2)
         t = rnd.choice(types)
+        if focus:
+            r_ = rnd.choice([0.1, 0.1, 0.5, 0.5, 0.5, r_])
         T = getattr(css[c], t["name"])
         base = {"cs": c + 1, "type": t, "mode": modes[c], "consts": consts}
         if r_ < 0.22 or not live:
@@ -118,6 +124,8 @@ def session_history(rnd, first_id, nev):
                 zero_like = A.gen_value(rnd, t, modes[c], g.consts)
             except Exception:  # noqa: BLE001
                 continue
+            if focus:
+                style = rnd.choice([0.2, 0.6, 0.6, 0.9])
             if style < 0.5:
                 pass
             elif style < 0.75:
@@ -163,6 +171,10 @@ def session_history(rnd, first_id, nev):
             T2 = getattr(css[c2], t2["name"])
             cur = A.project(o, t2)
             path, node, bits = pick_path(rnd, t2, cur)
+            for _retry in range(6 if focus else 0):
+                if len(path) >= 2:
+                    break
+                path, node, bits = pick_path(rnd, t2, cur)
             if not path:
                 continue
             try:
@@ -290,7 +302,7 @@ class SessionCheck:
                                              modes=[{"endian": "<", "align": a, "ptr": 8} for a in (False, True)], with_len_field=False))
         events, rid = [], 0
         for _ in range(2500 if thorough else 260):
-            evs, rid = session_history(rnd, rid, 30 if thorough else 14)
+            evs, rid = session_history(rnd, rid, 30 if thorough else 14, focus=rnd.random() < 0.3)
             events.append({"ev": "New", "endian": "<"})
             events += evs
         for _ in range(1500 if thorough else 120):
